@@ -191,7 +191,12 @@ def inline_comment(rng: random.Random, lay: Layout) -> str:
 
 def comment_block(rng: random.Random, lay: Layout, indent: str) -> list[str]:
     n = rng.choice([1, 1, 2, 3])
-    return [indent + ';' + rng.choice(['', ' ', '; ']) + rng.choice(['c', 'note', 'Ünï', '', 'x  y']) for _ in range(n)]
+
+    def ind():
+        if not indent or lay.uniform_indent or rng.random() < 0.5:
+            return indent
+        return rng.choice([' ', '  ', '\t', indent + ' ', '      '])     # same indentation class, different width
+    return [ind() + ';' + rng.choice(['', ' ', '; ']) + rng.choice(['c', 'note', 'Ünï', '', 'x  y']) for _ in range(n)]
 
 
 def meta_lines(rng: random.Random, lay: Layout, deeper: bool = False, allow_comments: bool = True) -> list[str]:
